@@ -34,6 +34,18 @@ CLAIMED = {
             "Trusted: rustc nightly MIR; writer API transfer functions in rules/linestate.py; run-time strings "
             "assumed non-empty without trailing blank; BLANK_EXEMPT table. Known findings listed.",
             "DESIGN.md §4 C09"),
+    "C11": ("panic-site inventory over the resolved call-graph closure of the front-end entry points, with "
+            "dominance-based guard discharge and checked structural invariants",
+            "Decides exactly: every bounds assert, Index call, str range slice, unwrap/expect, panic!/unreachable!, "
+            "RefCell borrow, str::repeat and Vec remove/insert/drain in the ~1150 functions reachable from lex, parse, "
+            "check_with_imports, format_source, try_generate*, format_error and the LSP range conversions is covered by "
+            "a dominating guard on the same container, a machine-checked invariant (parser cursor, SymbolTable scope "
+            "index, registry completeness, RefCell borrow regions) or a reviewed per-site reason; lex/parse/check "
+            "return Err only with a non-empty list; renderers clamp offsets with min(len). Termination, stack depth "
+            "and 'every span lies inside the file' are not decided.",
+            "Trusted: rustc nightly MIR; release profile (overflow asserts compiled out); the REVIEWED table in "
+            "rules/c11.py (25 sites, one reason each); 'a parser method returning Ok consumed a token'.",
+            "DESIGN.md §4 C11"),
     "C12": ("type-resolved call-site analysis: hash-iteration taint with idiom discharge, nondeterminism-source scan, "
             "control dependence of generated-file writes on filesystem queries",
             "Decides run-to-run determinism through its only sources: every HashMap/HashSet iteration in the closure "
